@@ -556,6 +556,7 @@ fn advance(c: &mut Chain, cx: &mut Ctx, target: i64, dense: bool) {
 fn fil(n: i64) -> TokenAmount { TokenAmount::from_whole(n) }
 
 const LONG_FAULT_SEQ: u64 = 1_000_000;
+fn cx_seq_tag() -> u64 { 1 }
 
 /// Operations beyond the basic sector life cycle: storage deals (publish, pre-commit with data,
 /// activation through prove-commit), non-interactive prove-commit, replica updates, and funding a
@@ -565,6 +566,33 @@ fn extra_op(c: &mut Chain, cx: &mut Ctx, r: &mut Rng, mi: usize, k: u64, view: &
             deals: &mut Vec<(u64, usize, i64, Option<u64>, bool)>, deal_tag: &mut u64,
             pending: &mut [Vec<(u64, i64)>], proven_any: &mut bool) {
     let epoch = c.epoch();
+    if k >= 124 {
+        // fee-debt probe: drain the miner, penalise it so that it ends in fee debt, fund it to exactly
+        // the debt, then try to onboard sectors (NI path) — the pledge must not be taken from funds
+        // that are about to be burnt
+        let avail = &view.balance - &view.pcd - &view.lf - &view.ip - &view.debt;
+        if avail.is_positive() {
+            exec(c, cx, format!("withdraw miner={} owner=true amount={}", mi, avail.atto()), false, false, |c| c.withdraw(mi, true, &avail));
+        }
+        let penalty = fil(r.range(20, 60));
+        record_balances(c);
+        exec(c, cx, format!("award_block_reward miner={} penalty={} gas=0 wins=1", mi, penalty.atto()), false, false, |c| c.award_block_reward(mi, &penalty, &TokenAmount::zero(), 1));
+        let v2 = c.miner_view(&c.miners[mi].id);
+        if v2.debt.is_positive() {
+            let unlocked = &v2.balance - &v2.pcd - &v2.lf - &v2.ip;
+            let want = &v2.debt + TokenAmount::from_atto(r.range(0, 2));
+            if want > unlocked {
+                let v = &want - &unlocked;
+                record_balances(c);
+                exec(c, cx, format!("fund miner={} value={}", mi, v.atto()), false, false, |c| c.send_funds(mi, &v));
+            }
+            let n = r.range(1, 2) as usize;
+            let dl = r.below(48);
+            record_balances(c);
+            exec(c, cx, format!("prove_commit_ni miner={} n={} deadline={}", mi, n, dl), false, false, |c| c.prove_commit_ni(mi, n, dl, 0).0);
+        }
+        return;
+    }
     if k < 106 {
         // publish a deal
         *deal_tag += 1;
@@ -632,6 +660,35 @@ fn extra_op(c: &mut Chain, cx: &mut Ctx, r: &mut Rng, mi: usize, k: u64, view: &
 /// charged, pledge released, queues empty).  The monitors run on every tick as usual.
 fn long_fault_script(c: &mut Chain, cx: &mut Ctx, pending: &mut Vec<Vec<(u64, i64)>>) {
     let mi = 0usize;
+    // a storage deal in one of the sectors, so that the fault time-out has deals to terminate; the
+    // miner's OnMinerSectorsTerminate call to the market is made to fail (tolerated in cron context)
+    {
+        let (owner, mid, client) = (c.miners[mi].owner, c.miners[mi].id, c.accounts[3].0);
+        record_balances(c);
+        exec(c, cx, "market_add_balance for=miner0 value=50".to_string(), false, false, |c| c.market_add_balance(&owner, &mid, &fil(50)));
+        record_balances(c);
+        exec(c, cx, "market_add_balance for=client3 value=500".to_string(), false, false, |c| c.market_add_balance(&client, &client, &fil(500)));
+        let start = c.epoch() + 400;
+        let end = start + 200 * 2880;
+        let mut id = None;
+        record_balances(c);
+        let res = exec(c, cx, format!("publish_deal miner={} client=3 start={} end={}", mi, start, end), false, false, |c| { let (a, b) = c.publish_deal(mi, 3, 999_000 + cx_seq_tag(), start, end); id = b; a });
+        if let (true, Some(d)) = (res.ok(), id) {
+            let e1 = c.epoch();
+            let mut sn = 0;
+            record_balances(c);
+            let res = exec(c, cx, format!("precommit miner={} n=1 deals=[{}]", mi, d), false, false, |c| { let (a, b) = c.precommit_with_deals(mi, &[d], 30 * 2880); sn = b; a });
+            if res.ok() {
+                let target = e1 + c.policy.pre_commit_challenge_delay + 2;
+                advance(c, cx, target, false);
+                record_balances(c);
+                exec(c, cx, format!("prove_commit miner={} sectors=[{}] deals=[{}]", mi, sn, d), false, false, |c| c.prove_commit_with_deals(mi, sn, &[d]));
+            }
+        }
+        let midn = c.miners[mi].id.id().unwrap();
+        c.w.vm.fault_plan.borrow_mut().rules = vec![FaultRule { from: Some(midn), to: Some(5), method: Some(fil_actor_market::Method::OnMinerSectorsTerminate as u64), exit: 7, ..Default::default() }];
+        cx.lines.push("# fault plan: miner -> market OnMinerSectorsTerminate fails".to_string());
+    }
     // one more sector next to the one pre-committed at creation
     let e0 = c.epoch();
     record_balances(c);
@@ -785,7 +842,9 @@ pub fn run(cfg: &RunCfg, which: Which) -> Report {
             } else {
                 c.w.vm.fault_plan.borrow_mut().rules.clear();
             }
-            let k = r.below(124);
+            let matured: TokenAmount = view.vest.iter().filter(|(e, _)| *e < epoch).map(|(_, x)| x.clone()).sum();
+            // a reward arriving while vested funds wait to be unlocked exercises the "newly vested" path
+            let k = if matured.is_positive() && r.chance(1, 3) { 93 } else { r.below(128) };
             record_balances(&c);
             if k >= 100 {
                 extra_op(&mut c, &mut cx, &mut r, mi, k, &view, &mut deals, &mut deal_tag, &mut pending, &mut proven_any);
